@@ -24,10 +24,17 @@ class Closed(Exception):
 
 
 class Client:
-    def __init__(self, port, tls=False, host="127.0.0.1", timeout=10.0, name=None):
+    def __init__(self, port, tls=False, host="127.0.0.1", timeout=10.0, name=None, rcvbuf=None):
         self.name = name
         self.port = port
-        self.sock = socket.create_connection((host, port), timeout=timeout)
+        if rcvbuf:
+            # a small receive buffer (set before connecting) lets unread output back up into the server
+            self.sock = socket.socket(socket.AF_INET, socket.SOCK_STREAM)
+            self.sock.setsockopt(socket.SOL_SOCKET, socket.SO_RCVBUF, rcvbuf)
+            self.sock.settimeout(timeout)
+            self.sock.connect((host, port))
+        else:
+            self.sock = socket.create_connection((host, port), timeout=timeout)
         self.sock.setsockopt(socket.IPPROTO_TCP, socket.TCP_NODELAY, 1)
         self.local_port = self.sock.getsockname()[1]
         if tls:
